@@ -124,7 +124,7 @@ def sign_for(convention, is_source):
 
 
 def run(chk, replay=None):
-    broken = chk.lean(['Lcapy/Props/C01.lean'],
+    broken = chk.lean(['Lcapy/Props/C01.lean', 'Lcapy/Props/C01TwoPort.lean'],
                       helper_files=['Lcapy/Proofs/MNA.lean', 'Lcapy/Model/MNA.lean', 'Lcapy/Model/Netlist.lean',
                                     'Lcapy/Spec/Laws.lean', 'Lcapy/Spec/LawsExec.lean', 'Lcapy/Model/GQ.lean'],
                       leanchecker=(chk.tier == 'thorough'))
